@@ -203,6 +203,14 @@ class C01(PropCheck):
                             what = "rejected payload nevertheless reached the radio (TX FIFO / air / peer changed)"
                             break
                         continue
+                    if t[1] == "write" and prev and res.split()[0] in ("T", "F"):
+                        # documented: write() returns True when the payload was put into the TX FIFO, False when that is full
+                        held = len([x for x in prev[0]["txf"][1:-1].split(",") if x])
+                        want = "F" if held >= 3 else "T"
+                        if res.split()[0] != want:
+                            what = (f"write() returned {res.split()[0]} with {held} payload(s) waiting in the 3-level TX FIFO "
+                                    f"(documented: {want})")
+                            break
                     room = len([x for x in (prev[1]["rxf"][1:-1].split(",") if prev else []) if x])
                     air = [r for r in (o["air"][1:-1].split(",") if o["air"] not in ("[]", "") else []) if r.startswith("0>")]
                     for b in bufs:
